@@ -105,3 +105,10 @@ m("c17-par-order-ignored", "C17", ABC, "                par_update(model_params[
 m("c18-bounds-reshape", "C18", BL, "        box_bounds = np.reshape(np.append(lb, ub), (len(lb), 2), 'F')", "        box_bounds = np.reshape(np.append(lb, ub), (len(lb), 2), 'C')")
 m("c20-jtj-weights-dropped", "C20", BL, "            sens[:,:,j] *= np.reshape(self._weight, (n, num_s))", "            pass")
 m("c20-revert-hessian-sign", "C20", BL, "            E[self._stateIndex] += diff_loss[i]", "            E[self._stateIndex] += -diff_loss[i]")
+
+# ---- reverts of the fix: commits of the third session (error-path hygiene)
+m("c02-initial-state-assigned-before-check", "C02", DET, "        # check before assigning: a rejected input must not be kept\n        if len(x0_new) != self.num_state:",
+  "        self._x0 = x0_new\n        if len(x0_new) != self.num_state:")
+m("c09-revert-atomic-parameters", "C09", BASE, "        param_value = [0]*len(self._paramList)\n\n        for key, val in param_out.items():",
+  "        self._parameters = param_out\n        param_value = self._paramValue = [0]*len(self._paramList)\n\n        for key, val in param_out.items():")
+m("c11-revert-finally", "C11", BASE, "        finally:\n            # also when a later name of the list is rejected", "        except Exception:\n            raise\n        else:\n            # also when a later name of the list is rejected")
